@@ -53,6 +53,13 @@ func vfExecMore3(f []string, op string) (string, bool) {
 				if errAt < 0 {
 					rd = bytes.NewBuffer(append([]byte{}, data...))
 				}
+			case "lenshort", "lenzero", "lenhuge":
+				// a reader that also has a Len() method which says nothing about what Read delivers (a decompressing
+				// wrapper embedding its source buffer): DetectReader is specified on io.Reader alone
+				if errAt < 0 {
+					n := map[string]int{"lenshort": 3, "lenzero": 0, "lenhuge": 1 << 40}[f[6]]
+					rd = &vfLenReader{r: bytes.NewReader(data), n: n}
+				}
 			case "bytesadv", "stringsadv", "sectionadv", "fileadv":
 				// a seekable reader the caller has already advanced: it delivers `data`, and what lies in
 				// front of its position (a PNG signature) is none of DetectReader's business
@@ -136,6 +143,15 @@ func vfExecMore3(f []string, op string) (string, bool) {
 	}
 	return vfExecMore4(f, op)
 }
+
+type vfLenReader struct {
+	r io.Reader
+	n int
+}
+
+func (l *vfLenReader) Read(p []byte) (int, error) { return l.r.Read(p) }
+func (l *vfLenReader) Len() int                   { return l.n }
+func (l *vfLenReader) Size() int64                { return int64(l.n) }
 
 var vfSentinel = errors.New("verif: injected read failure")
 
@@ -317,6 +333,27 @@ func (g *vfGen) genC05() {
 		b[sz-1] = 0 // a binary byte at the very end
 		g.emit(vfOp("reader", 0, b, g.chunks(sz), 1, -1))
 		g.emit(vfOp("file", 0, b))
+	}
+	for _, w := range []string{"lenshort", "lenzero", "lenhuge"} {
+		for _, in := range [][]byte{[]byte(`{"a":[1,2,3],"b":"long enough to matter"}`), []byte("%PDF-1.4\nxxxxxxxx"), []byte("plain text, more than three bytes"), {}} {
+			for _, lim := range []int{0, 3072, 16, 5} {
+				g.emit(vfOp("reader", lim, in, "~", 0, -1, w))
+			}
+		}
+	}
+	// limits next to 2^32: the header buffer is sized by the limit, whatever arithmetic is used on the way
+	// (each such call allocates and clears a buffer of that size: two in the quick tier, the rest in the thorough one)
+	for k, lim := range []uint32{4294967295, 4294963201, 4294967294, 4294963200, 2147483648} {
+		in := []byte(`{"a":[1,2,3]}`)
+		g.emit(vfOp("reader", lim, in, "~", 0, -1))
+		g.emit(vfOp("walk", in, lim))
+		if k >= 2 && !g.thorough {
+			break
+		}
+		if g.thorough {
+			g.emit(vfOp("reader", lim, in, "1,2,3", 1, -1))
+			g.emit(vfOp("file", lim, in))
+		}
 	}
 	for _, w := range []string{"bytesadv", "stringsadv", "sectionadv", "fileadv"} {
 		for _, in := range [][]byte{[]byte("plain text after the envelope"), []byte("%PDF-1.4\n"), []byte("{\"a\":1}"), {}, {0, 1, 2}} {
